@@ -286,6 +286,30 @@ def features(case):
                                   "body" if bad_body else "bad_call")
         elif kind == "test" and case["exit"] == "failure":
             cause = "reject"
+        elif kind == "run" and cmd["explicit"] and cmd.get("mod"):
+            # entry given as a module path: which function, if any, does it designate
+            en = tuple(cmd["fn"])
+            emod = tuple(map(tuple, cmd["mod"]))
+            modset = {tuple(map(tuple, m)) for m in pkg["mods"]}
+            f = fkeys.get((emod, en))
+            if f is not None:
+                cause = ("ok_" if f["sig"] == "unit" else "mistyped_") + (
+                    "fn_also_in_root" if ((), en) in fkeys else
+                    "fn_only_there" if sum(1 for k in fkeys if k[1] == en) == 1 else "fn_also_elsewhere")
+                if len(emod) >= 2:
+                    fs.add("cli:run+path:nested_ok")
+            elif emod not in modset:
+                cause = "missing_module" + ("_root_has_fn" if ((), en) in fkeys else "")
+            elif (emod, en) in tkeys:
+                cause = "is_a_test"
+            elif ((), en) in fkeys:
+                cause = "fn_only_in_root"
+            elif any(k[1] == en for k in fkeys):
+                cause = "fn_only_in_other_module"
+            else:
+                cause = "missing_fn"
+            fs.add("cli:run+path:%s" % cause)
+            return fs
         elif kind == "run" and case["exit"] == "failure":
             en = tuple(cmd["fn"]) if cmd["explicit"] else tuple(map(ord, "main"))
             f = fkeys.get(((), en))
@@ -321,7 +345,10 @@ CLI_REQUIRED = ["cli:check:ok", "cli:check:compile_broken", "cli:check:compile_d
                 "cli:check:compile_body", "cli:test:compile_body", "cli:run:compile_body",
                 "cli:check:interp_last_valid", "cli:check:interp_last_invalid",
                 "cli:test:interp_last_valid", "cli:test:interp_last_invalid",
-                "cli:run:interp_last_valid", "body_valid_reject", "body_valid_accept"]
+                "cli:run:interp_last_valid", "body_valid_reject", "body_valid_accept",
+                "cli:run+path:ok_fn_also_in_root", "cli:run+path:ok_fn_only_there", "cli:run+path:missing_module",
+                "cli:run+path:missing_module_root_has_fn", "cli:run+path:fn_only_in_root", "cli:run+path:missing_fn",
+                "cli:run+path:is_a_test", "cli:run+path:nested_ok", "cli:run+path:fn_only_in_other_module"]
 
 
 def nontrivial(case):
@@ -340,7 +367,8 @@ def nontrivial(case):
 # ------------------------------------------------------------------ TLC cases
 
 def mc_cfg(path, family, max1, max2, tnames, subnames, fnnames, callnames, brokens=("none",),
-           mainsigs=("none",), runnames=(), submain=(False,), bodies=("plain",), fnpos=("mixed",), nodups=False):
+           mainsigs=("none",), runnames=(), submain=(False,), bodies=("plain",), fnpos=("mixed",), nodups=False,
+           modshapes=("single", "sub"), subfnnames=(), runmods=("",)):
     def sset(xs):
         return "{%s}" % ", ".join('"%s"' % x for x in xs)
     with open(path, "w") as f:
@@ -360,11 +388,14 @@ CONSTANTS
   BodyForms = %s
   FnPositions = %s
   NoDups = %s
+  ModShapes = %s
+  SubFnNames = %s
+  RunMods = %s
 INVARIANTS MCInv Emit
 CHECK_DEADLOCK FALSE
 """ % (family, max1, max2, sset(tnames), sset(subnames), sset(fnnames), sset(callnames), sset(brokens),
        sset(mainsigs), sset(runnames), ", ".join("TRUE" if b else "FALSE" for b in submain),
-       sset(bodies), sset(fnpos), "TRUE" if nodups else "FALSE"))
+       sset(bodies), sset(fnpos), "TRUE" if nodups else "FALSE", sset(modshapes), sset(subfnnames), sset(runmods)))
 
 
 def plans(tier):
@@ -397,6 +428,15 @@ def plans(tier):
     cli.append(("cli_body", dict(max1=2 if big else 1, max2=1, tnames=["a"] if not big else ["a", "b"], subnames=["m"],
                                  fnnames=[], callnames=[], brokens=["none"], mainsigs=["unit"], runnames=[],
                                  submain=[False], bodies=ALL_BODIES, fnpos=pos3, nodups=True)))
+    # `run` with an entry name that is a module path, over multi-module packages
+    cli.append(("cli_entry", dict(max1=0, max2=1, tnames=["a"], subnames=["m"], fnnames=["a"], callnames=[],
+                                  brokens=["none"], mainsigs=["none", "unit"], runnames=["main", "a", "b"],
+                                  submain=[False], modshapes=["sub"], subfnnames=["main", "b"] + (["a"] if big else []),
+                                  runmods=["", "m", "x"] + (["u"] if big else []))))
+    cli.append(("cli_entry_nested", dict(max1=0, max2=0, tnames=["a"], subnames=["m"], fnnames=["a"] if big else [],
+                                         callnames=[], brokens=["none"], mainsigs=["none", "unit"],
+                                         runnames=["main", "b"], submain=[False], modshapes=["nested"],
+                                         subfnnames=["main", "b"], runmods=["", "m", "m.u", "x", "m.x", "u", "u.m"])))
     return api, cli
 
 
@@ -412,7 +452,8 @@ def generate(tier, ev):
             r = run_tlc("MCTestRunner", cfg, workers=6, timeout=1500, heap="6g", coverage=True)
             require_tlc_ok(r, "MCTestRunner %s" % tag)
             ev.add_tlc(r)
-            need = ["Compile", "RunSome", "Finish"] + (["CheckDone", "RunEntry"] if fam == "cli" else [])
+            need = ["Compile"] + (["RunSome", "Finish"] if kw["max1"] + kw["max2"] > 0 else []) + (
+                ["CheckDone", "RunEntry"] if fam == "cli" else [])
             vlib.require_coverage(r, need, "MCTestRunner %s" % tag)
             for c in r.replay:
                 c["plan"] = tag
@@ -498,7 +539,7 @@ def cli_args(case, path):
     cmd = case["cmd"]
     a = [cmd["kind"], path]
     if cmd["explicit"]:
-        a.append(nm(cmd["fn"]))
+        a.append(".".join([nm(x) for x in cmd.get("mod", [])] + [nm(cmd["fn"])]))
     return a
 
 
@@ -632,7 +673,7 @@ def impl_to_spec(tier, ev, verd, corrupt=None):
         raise vlib.ToolError("no random package ends in a test block with a string interpolation")
     cases = [{"files": render_pkg(p, "api")} for p in pkgs]
     results = vlib.run_batch("c19", cases, nproc=8, pid=PID, tag="rec", stall=60)
-    api_cmd = {"kind": "api", "explicit": False, "fn": codes("main")}
+    api_cmd = {"kind": "api", "explicit": False, "mod": [], "fn": codes("main")}
     for p, c, res in zip(pkgs, cases, results):
         pseudo = {"pkg": p, "cmd": api_cmd}
         if vlib.outcome_of(res) != "returned":
@@ -663,7 +704,18 @@ def impl_to_spec(tier, ev, verd, corrupt=None):
         kind = rng.choice(["check", "test", "test", "run", "run"])
         explicit = kind == "run" and rng.random() < 0.4
         fn = codes(rng.choice(NAMES)) if explicit else codes("main")
-        cmds.append({"kind": kind, "explicit": explicit, "fn": fn})
+        emod = []
+        if explicit and rng.random() < 0.6:
+            # entry given as a module path: mostly an existing function of a module below the root
+            subs = [f for f in p["funcs"] if f["mod"]]
+            if subs and rng.random() < 0.7:
+                f = rng.choice(subs)
+                emod, fn = f["mod"], f["name"]
+            elif rng.random() < 0.7:
+                emod = rng.choice(p["mods"])
+            else:
+                emod = [codes("nosuch")]
+        cmds.append({"kind": kind, "explicit": explicit, "mod": emod, "fn": fn})
         cpk.append(p)
     pseudo_cases = [{"pkg": p, "cmd": c} for p, c in zip(cpk, cmds)]
     for case, rr, path in run_cli_cases(pseudo_cases, "rec", verd):
